@@ -15,7 +15,7 @@ ASSUMPTIONS = [
 LEVEL_TEXT = ('Deductive proof for the section splitter: every section and every returned [text, map] part has len(text) == '
     'len(map) and map entries inside the source (range preserved through merging of sections and through the placeholder of a '
     'short foreign insertion, whose characters take positions of the insertion itself); the language stack never becomes empty '
-    '(so the label of a section always exists); the merge loop terminates (variant: number of remaining sections); the '
+    '(so the label of a section always exists); the merge loop terminates (variant: number of remaining sections); wherever the text of one section is glued to another (A.txt += B.txt in get_txt_pos_ml) both carry the same language, so the words of B stay in a part of their language; the '
     'placeholder collection keeps its length under rotation; all subscripts (sections[1], sections[2], incl.pos[start], '
     'incl.txt[-1], repl[0]) are safe.')
 LEVEL_NOTE = 'Lemma level only; the end-to-end sentence of C12 is not decided by this technique.'
